@@ -208,6 +208,43 @@ theorem mask_func_path {μ} [Inhabited μ] [MaskVal μ] (mf : List Nat → Optio
       unfold applyMask
       rw [if_neg h2, hw]
 
+/-! ## `ApplyMaskModule` on sample dicts -/
+
+/-- **`apply_mask_module_ignores_existing_target`**: whatever is already stored under the target key
+(nothing, stale k-space of the same or another shape) has no influence on the result. -/
+theorem apply_mask_module_ignores_existing_target {μ} [Inhabited μ] [MaskVal μ] (s : Sample μ)
+    (t' : Option (Tensor FVal)) : applyMaskModule { s with target := t' } = applyMaskModule s := rfl
+
+/-- the module is `apply_mask` of the current input and the current mask -/
+theorem apply_mask_module_eq {μ} [Inhabited μ] [MaskVal μ] (k : Tensor FVal) (m : Tensor μ)
+    (t : Option (Tensor FVal)) :
+    applyMaskModule { input := some k, mask := some m, target := t } = ModRes.ofRes (applyMask m k) := rfl
+
+/-- missing keys are rejected, never defaulted -/
+theorem apply_mask_module_missing {μ} [Inhabited μ] [MaskVal μ] (s : Sample μ)
+    (h : s.input = none ∨ s.mask = none) : applyMaskModule s = .valueError := by
+  unfold applyMaskModule
+  rcases h with h | h
+  · rw [h]
+  · rw [h]; cases s.input <;> rfl
+
+/-- **Histories**: applying the module repeatedly to the same dict with new masks, every step's
+result is `apply_mask(input, current mask)` — for any initial stale target, any number of steps. -/
+theorem module_history {μ} [Inhabited μ] [MaskVal μ] (k : Tensor FVal) (t : Option (Tensor FVal))
+    (ms : List (Tensor μ)) :
+    moduleHistory k t ms = ms.map fun m => ModRes.ofRes (applyMask m k) := by
+  induction ms generalizing t with
+  | nil => rfl
+  | cons m ms ih => simp only [moduleHistory, List.map_cons, ih, apply_mask_module_eq]
+
+/-- hence each step is bit-identical to the input on the current mask's support and `+0` off it -/
+theorem module_history_step {μ} [Inhabited μ] [MaskVal μ] (k : Tensor FVal) (t : Option (Tensor FVal))
+    (ms : List (Tensor μ)) (i : Nat) (m : Tensor μ) (o : Tensor FVal) (hm : ms[i]? = some m)
+    (ho : (moduleHistory k t ms)[i]? = some (.ok o)) : applyMask m k = .ok o := by
+  rw [module_history, List.getElem?_map, hm] at ho
+  simp only [Option.map_some, Option.some.injEq] at ho
+  cases ha : applyMask m k <;> simp_all [ModRes.ofRes]
+
 /-! ## operators -/
 
 theorem runStages_append {V} (ops : Ops V) (a b : List Stage) (x : V) :
@@ -345,6 +382,13 @@ example : srcAt exM default exO.shape.reverse 6 ≠ 0 ∧ exO.data[6]? = some .n
 example : srcAt exM default exO.shape.reverse 4 = 0 ∧ exO.data[4]? = some .posZero := by decide
 example : fwdOp id id exM exK = some exO := by decide
 example : bwdOp id id exM exK = some exO := by decide
+/-- a stale same-shape target and a second application with another mask -/
+def exM2 : Tensor Int := { shape := [2, 1], data := [1, 0] }
+example : moduleHistory exK (some exK) [exM, exM2] =
+    [.ok exO, ModRes.ofRes (applyMask exM2 exK)] := by decide
+example : applyMaskModule { input := some exK, mask := some exM, target := some exK } = .ok exO := by decide
+example : applyMaskModule ({ input := some exK, mask := none, target := none } : Sample Int) = .valueError := by
+  decide
 example : applyMask ({ shape := [3], data := [1, 1, 1] } : Tensor Int) exK = .runtimeError := by decide
 example : applyMask exM ({ shape := [2, 3], data := [] } : Tensor FVal) = .assertionError := by decide
 example : agreeOnSupport exM exK exO := by
